@@ -1015,6 +1015,42 @@ pub fn c03_elements() {
     rep.finish();
 }
 
+// C14 over the DOM pass: one element with id="x" per document, over a catalogue of element kinds.
+pub fn c14_elements() {
+    let inline = ["span", "em", "strong", "b", "i", "code", "s", "del", "ins", "sup", "sub", "u", "small", "abbr", "q", "cite", "kbd", "mark", "font", "label", "button", "tt", "big", "var", "samp", "dfn", "time", "bdo"];
+    let block = ["p", "div", "h1", "h2", "h3", "h4", "h5", "h6", "blockquote", "pre", "section", "article", "address", "center", "form", "main", "aside", "header", "footer", "nav", "figure", "details", "fieldset"];
+    let mut docs: Vec<String> = vec![];
+    for e in inline { docs.push(format!("<p>ta <{} id=\"x\">tb</{}> tc</p>", e, e)); }
+    for e in block { docs.push(format!("<div>ta</div><{} id=\"x\">tb</{}><div>tc</div>", e, e)); }
+    for d in ["<p>ta <a id=\"x\" href=\"u\">tb</a> tc</p>", "<p>ta <a name=\"x\">tb</a> tc</p>", "<p>ta <a id=\"x\">tb</a> tc</p>",
+              "<p>ta</p><ul id=\"x\"><li>tb</li></ul>", "<p>ta</p><ul><li id=\"x\">tb</li></ul>", "<p>ta</p><ol id=\"x\"><li>tb</li></ol>", "<p>ta</p><ol><li id=\"x\">tb</li></ol>",
+              "<p>ta</p><dl id=\"x\"><dt>tb</dt><dd>tc</dd></dl>", "<p>ta</p><dl><dt id=\"x\">tb</dt><dd>tc</dd></dl>", "<p>ta</p><dl><dt>tz</dt><dd id=\"x\">tb</dd></dl>",
+              "<p>ta</p><table id=\"x\"><tr><td>tb</td></tr></table>", "<p>ta</p><table><thead id=\"x\"><tr><th>tb</th></tr></thead><tr><td>tc</td></tr></table>",
+              "<p>ta</p><table><tbody id=\"x\"><tr><td>tb</td></tr></tbody></table>", "<p>ta</p><table><tr><td>tz</td></tr><tfoot id=\"x\"><tr><td>tb</td></tr></tfoot></table>",
+              "<p>ta</p><table><tr id=\"x\"><td>tb</td></tr></table>", "<p>ta</p><table><tr><td id=\"x\">tb</td></tr></table>", "<p>ta</p><table><tr><th id=\"x\">tb</th></tr></table>",
+              "<p>ta</p><details><summary id=\"x\">tb</summary>tc</details>", "<p>ta</p><figure><figcaption id=\"x\">tb</figcaption></figure>", "<p>ta</p><fieldset><legend id=\"x\">tb</legend></fieldset>",
+              "<p>ta <img id=\"x\" src=\"s\" alt=\"tb\"> tc</p>", "<p>ta</p><select id=\"x\"><option>tb</option></select>", "<p>ta</p><select><option id=\"x\">tb</option></select>",
+              "<p>ta</p><div id=\"x\"><div><div>tb</div></div></div>", "<p>ta</p><span id=\"x\"><p>tb</p></span>", "<p>ta</p><em id=\"x\"><ul><li>tb</li></ul></em>",
+              "<p>ta</p><div id=\"x\"><table><tr><td>tb</td></tr></table></div>", "<p>ta</p><blockquote id=\"x\"><blockquote>tb</blockquote></blockquote>"] { docs.push(d.to_string()); }
+    let mut rep = Report::new("c14_elements", &format!("{} documents, each with one element carrying id (or name) \"x\" whose first text is tb, over {} inline and {} block element kinds, list, definition-list and table parts,         form and interactive elements, nested blocks; widths 4, 12, 40; rich lines: exactly one FragmentStart \"x\", and the first text after it starts with tb", docs.len(), inline.len(), block.len()));
+    for html in &docs { for w in [4usize, 12, 40] {
+        let input = format!("width={} html={}", w, html);
+        rep.case(&input);
+        let h = html.clone();
+        let lines = match panic::catch_unwind(move || config::rich().lines_from_read(h.as_bytes(), w)) { Ok(Ok(l)) => l, Ok(Err(_)) => continue, Err(_) => { rep.found(&input, "panic"); continue; } };
+        let mut ev: Vec<(bool, String)> = vec![];
+        for l in &lines { for e in l.iter() { match e {
+            TaggedLineElement::FragmentStart(f) => ev.push((true, f.clone())),
+            TaggedLineElement::Str(ts) => { let t: String = ts.s.chars().filter(|c| c.is_alphanumeric()).collect(); if !t.is_empty() { ev.push((false, t)); } }
+        }}}
+        let pos: Vec<usize> = ev.iter().enumerate().filter(|(_, e)| e.0 && e.1 == "x").map(|(i, _)| i).collect();
+        if pos.len() != 1 { rep.found(&input, &format!("id \"x\" yields {} fragment markers; events {:?}", pos.len(), ev)); continue; }
+        let after: String = ev[pos[0] + 1..].iter().filter(|e| !e.0).map(|e| e.1.as_str()).collect();
+        if !after.starts_with("tb") && !after.starts_with("1tb") { rep.found(&input, &format!("marker is followed by {:?}, expected the element's text tb; events {:?}", &after[..after.len().min(12)], ev)); }
+    }}
+    rep.finish();
+}
+
 // ------------------------------------------------------------------------------------------------------------------------------
 // C04: paragraph wrapping == reference greedy wrapper (add_inline_text / add_text / flush_word / flush_word_hard_wrap composed over text
 // nodes and inline elements by do_render_node).
@@ -1045,7 +1081,7 @@ pub fn bnd_c04() {
     let (npar, maxw) = if thorough() { (1200u32, 40usize) } else { (250u32, 30usize) };
     let mut rep = Report::new("bnd_c04", &format!("{} seeded paragraphs of 1..12 words (ASCII words of 1..9 letters, wide-character words, words with a combining mark, words with as many wide characters as combining marks), split arbitrarily across text nodes and \
         em/strong/code/span elements, white-space runs of spaces/newlines/tabs (sometimes alone inside an inline element); widths 1..={}; undecorated plain rendering: the lines equal those of a reference greedy wrapper, \
-        an error is returned exactly when a wide character meets width 1; also under max_wrap_width m < width (effective width m)", npar, maxw));
+        an error is returned exactly when a wide character meets width 1; also under max_wrap_width m < width (effective width m), and inside a quote and a list item at widths 5..=16 (effective width w - 2)", npar, maxw));
     let mut r = Lcg(0x6a09e667f3bcc908 ^ seed());
     for _ in 0..npar {
         let nw = 1 + r.below(12) as usize;
@@ -1102,6 +1138,25 @@ pub fn bnd_c04() {
                 }
             }
         }}
+        // the same paragraph inside a prefixed block: greedy filling of width - prefix (from 3 columns of text on: below that min_wrap_width refuses the block)
+        let inner = &html[3..html.len() - 4];
+        for (open, close, first, cont) in [("<blockquote>", "</blockquote>", "> ", "> "), ("<ul><li>", "</li></ul>", "* ", "  ")] {
+            let h2 = format!("{}{}{}", open, inner, close);
+            for w in 5..=maxw.min(16) {
+                let input = format!("width={} html={}", w, h2);
+                rep.case(&input);
+                let h = h2.clone();
+                match panic::catch_unwind(move || config::plain_no_decorate().string_from_read(h.as_bytes(), w)) {
+                    Err(_) => rep.found(&input, "panic"),
+                    Ok(Err(e)) => rep.found(&input, &format!("error {:?} although every character fits", e)),
+                    Ok(Ok(out)) => {
+                        let want: Vec<String> = greedy(&words, w - 2).into_iter().enumerate().map(|(i, l)| format!("{}{}", if i == 0 { first } else { cont }, l)).collect();
+                        let got: Vec<String> = out.lines().map(|l| l.to_string()).collect();
+                        if got != want { rep.found(&input, &format!("lines {:?}, greedy reference {:?}", got, want)); }
+                    }
+                }
+            }
+        }
     }
     rep.finish();
 }
